@@ -10,6 +10,7 @@ type eff =
 | EWalTmpCreate of coq_N
 | EWalTmpWrite of coq_N * segment
 | EWalRename of coq_N * segment
+| EWalTmpRemove
 | EPartStore of name * coq_N * row list
 | EMetaStore of coq_N * (name * pmeta list) list
 | EPartRemove of name * coq_N
